@@ -33,6 +33,7 @@ pub fn setup(env: &Env) -> i32 {
 pub fn rule_for(prop: &str) -> &'static str {
     match prop {
         "C01" => "cases = (declaration, raw input): per declaration the seed-independent systematic inputs (all 2^8/2^16 values of 8/16-bit integers; bound±k, extremes and powers of two for wider integers; special-value grid and ulp neighbourhoods of every bound for floats; all strings over the hostile alphabet up to a length bound plus length-bound neighbourhoods) de-duplicated, plus proptest-generated random inputs; oracle = reference model validate(sanitize(raw)) compared with try_new/new (Ok/Err and bitwise value), twins compared with each other, const-evaluated results with run time. Non-trivial = distinct (declaration, input) where a sanitizer changes the input, or the model rejects it, or it lies within 2 steps of a declared bound.",
+        "C02" => "cases = (declaration, raw input) where the declaration spells a bound in one of ~45 syntactic forms per numeric family (plain / negative / underscored / hex / suffixed literals, constants, negated constants `-K`, `- K`, `-(K)`, `-m::K`, parenthesised, arithmetic, shift, bit operations, casts, T::MIN/MAX/INFINITY, blocks, if/match expressions, const fn and method calls, literal-leading expressions) for every validator kind and several inner types incl. len_char_* on strings, or lays its attribute out in a permuted block order with trailing commas, empty lists or repeated sanitize/validate blocks; seed-dependent random combinations are generated with proptest. Each unit carries the macro-side text and a neutral `const` from which rustc computes the denoted value. Outcome 'rejected by rustc' is allowed and counted; for accepted units the oracle is C01's reference model over the union of all written rules. Non-trivial = distinct (declaration, input) with a non-literal spelling or non-canonical layout and the input within 2 steps of the denoted bound.",
         "C03" => "cases = (declaration deriving TryFrom/From/FromStr(String)/Default, raw input) over the C01 input domains, plus one Default case per declaration with a default; oracle = equality (value, error, panic) with try_new/new on the same input; Default must equal the constructor on the neutral evaluation of the default expression and panic when the constructor rejects it. Non-trivial = distinct case whose input is changed by sanitising or rejected by the reference model; every Default case.",
         "C04" => "cases = (declaration deriving Deserialize, format in {JSON, RON, MessagePack}, position in {top, Vec, Option, struct field, map value, map key}, document bytes): documents are serde encodings of seed values (valid / at and beyond each bound / changed by sanitising) at every integer and float width and as wrong types, wrapped and unwrapped as newtype struct, raw JSON/RON number spellings, plus proptest byte-level mutations; oracle = the same bytes decoded as a serde-derived reference newtype of the same name, then the constructor applied to every carried value (map keys: accepted keys must be fixed points of the constructor). Non-trivial = distinct document that decodes and whose value the constructor rejects or changes, or any nested position.",
         "C06" => "cases = (non-string declaration deriving FromStr, string): Display renderings of all systematic inner values with sign/padding/zero/exponent variants, a list of hostile numeric strings (overflowing digit runs, NaN/inf spellings, non-ASCII digits, type extremes ±1), proptest strings from numeric grammars and arbitrary Unicode; oracle = inner.parse() then the constructor, compared in variant and payload (Debug of the parse error, validation error index). Non-trivial = distinct string that parses as the inner type.",
@@ -50,9 +51,13 @@ pub fn rule_for(prop: &str) -> &'static str {
 
 pub fn run(env: &Env, prop: &str, tier: &str) -> i32 {
     let t0 = std::time::Instant::now();
-    let decls = rt_decls(env, tier);
     let release = tier == "thorough";
-    let built = match build_rt(env, &rt_dir(env), "rtcorpus", &decls, release) {
+    let (decls, dir, name) = if prop == "C02" {
+        (vmodel::c02::decls(env.seed, tier == "thorough"), env.work.join("gen/c02"), "c02corpus")
+    } else {
+        (rt_decls(env, tier), rt_dir(env), "rtcorpus")
+    };
+    let built = match build_rt(env, &dir, name, &decls, release) {
         Ok(b) => b,
         Err(e) => {
             eprintln!("INCONCLUSIVE: {e}");
@@ -246,6 +251,18 @@ fn finish(
             *hist_tags.entry(key).or_insert(0) += 1;
         }
     }
+    let mut rejected_by_class: BTreeMap<String, u64> = BTreeMap::new();
+    for id in built.rejected.keys() {
+        if let Some(d) = decls.iter().find(|d| &d.id == id) {
+            *rejected_by_class.entry(d.tags.first().cloned().unwrap_or_default()).or_insert(0) += 1;
+        }
+    }
+    let mut generated_by_class: BTreeMap<String, u64> = BTreeMap::new();
+    if prop == "C02" {
+        for d in decls {
+            *generated_by_class.entry(d.tags.first().cloned().unwrap_or_default()).or_insert(0) += 1;
+        }
+    }
     let ev = Evidence {
         property: prop.to_string(),
         tier: tier.to_string(),
@@ -261,6 +278,8 @@ fn finish(
             "declarations_relevant": rep.decls_relevant,
             "declarations_exhaustive_over_inner_type": rep.exhaustive_decls,
             "declarations_rejected_by_rustc": built.rejected,
+            "declarations_rejected_by_class": rejected_by_class,
+            "declarations_generated_by_class": generated_by_class,
             "case_classes": rep.classes,
             "declarations_by_inner_type": hist_family,
             "declarations_by_catalogue_section": hist_tags,
@@ -311,6 +330,9 @@ pub fn replay(env: &Env, dir: &str) -> i32 {
         return 2;
     };
     let case: Value = serde_json::from_str(&text).expect("case.json");
+    if case["kind"].as_str() == Some("compile-verdict") {
+        return crate::cprops::replay(env, &case);
+    }
     let prop = case["property"].as_str().unwrap_or("").to_string();
     let rdir = env.work.join("gen/replay");
     let _ = std::fs::remove_dir_all(rdir.join("src"));
